@@ -926,6 +926,13 @@ class Tr:
 
     def mcall(self, e, env, expect):
         recv, name, args = e[1], e[2], e[3]
+        if name == 'unwrap' and recv[0] == 'call' and recv[1][-1] == 'load' and len(recv[2]) == 1:
+            a = recv[2][0]
+            while a[0] in ('ref', 'paren'): a = a[1]
+            if a[0] == 'mcall' and a[2] == 'to_byte_slice':
+                # a copy made by serialising and re-loading the header: the value itself (round trip = C03 `encode_decode`)
+                self.notes.append('clone through to_byte_slice/load treated as the identity')
+                return self.ex(a[1], env, expect)
         rr = recv
         while rr[0] in ('paren', 'ref'): rr = rr[1]
         if rr[0] == 'range' and name == 'contains' and rr[1] is not None and rr[2] is not None:
@@ -976,6 +983,14 @@ class Tr:
             if name == 'is_none': return f'({s}.isNone)', 'bool'
             if name == 'is_some': return f'({s}.isSome)', 'bool'
             if name == 'unwrap': return f'(Rs.unwrapD {s})', t[1]
+            if name in ('as_ref', 'as_mut', 'clone', 'copied'): return s, t
+            if name == 'is_some_and':
+                cl = args[0]
+                if cl[0] != 'closure' or len(cl[1]) != 1: raise TranslateError('closure expected')
+                pn = cl[1][0][1]
+                env2 = self.fork(env); env2['vars'][pn] = (pn, t[1])
+                body, _ = self.ex(cl[2], env2)
+                return f'(match {s} with | some {pn} => {body} | none => false)', 'bool'
         if isinstance(t, tuple) and t[0] == 'result':
             if name == 'is_err': return f'({s}.isErr)', 'bool'
             if name == 'is_ok': return f'(!{s}.isErr)', 'bool'
@@ -1072,7 +1087,7 @@ class Tr:
                 n = e[2][0][1]
                 if n not in declared and n not in vs: vs.append(n)
                 return
-            if e[0] == 'mcall' and e[2] in ('push_str', 'push') and e[1][0] == 'path' and len(e[1][1]) == 1:
+            if e[0] == 'mcall' and e[2] in ('push_str', 'push', 'insert_str') and e[1][0] == 'path' and len(e[1][1]) == 1:
                 n = e[1][1][0]
                 if n not in declared and n not in vs: vs.append(n)
             if e[0] == 'mcall' and e[2] == 'unwrap': walk_e(e[1]); return
@@ -1164,6 +1179,10 @@ class Tr:
             return self.ex(e[1], env, expect)
         if e[0] == 'if':
             return self.if_stmt(e, rest, env, expect, is_tail)
+        if e[0] == 'match':
+            d = self.match_as_ifs(e, env)
+            if d is not None:
+                return self.if_stmt(d, rest, env, expect, is_tail)
         if e[0] == 'match' and not rest:
             return self.ex(e, env, expect)
         if e[0] == 'block' and not rest:
@@ -1271,6 +1290,34 @@ class Tr:
         walk(rest)
         return found[0] if found and all(f == found[0] for f in found) else None
 
+    def match_as_ifs(self, e, env):
+        """`match <integer> { lit => A, lit | lit => B, _ => C }` without guards, as nested `if`s (first arm that matches wins)"""
+        try:
+            _, t = self.ex(e[1], env)
+        except TranslateError:
+            return None
+        if t not in INT_TYPES: return None
+        def cond_of(pat):
+            if pat[0] == 'plit': return ('bin', '==', e[1], ('lit', pat[1], None, str(pat[1])))
+            if pat[0] == 'por':
+                cs = [cond_of(p) for p in pat[1]]
+                if any(c is None for c in cs): return None
+                r = cs[0]
+                for c in cs[1:]: r = ('bin', '||', r, c)
+                return r
+            if pat[0] == 'prange' and pat[1][0] == 'plit' and pat[2][0] == 'plit':
+                return ('bin', '&&', ('bin', '>=', e[1], ('lit', pat[1][1], None, '')), ('bin', '<=', e[1], ('lit', pat[2][1], None, '')))
+            return None
+        arms = e[2]
+        if not arms or arms[-1][0][0] not in ('pwild', 'pbind') or any(g for _, g, _ in arms): return None
+        def blk(b): return b[1] if b[0] == 'block' else [('expr', b, True)]
+        res = blk(arms[-1][2])
+        for pat, _, body in reversed(arms[:-1]):
+            c = cond_of(pat)
+            if c is None: return None
+            res = [('expr', ('if', c, blk(body), res), True)]
+        return res[0][1]
+
     def fresh(self, name, env):
         env['n'] = env.get('n', 0) + 1
         base = name if name != 'self' else 'self_'
@@ -1285,6 +1332,13 @@ class Tr:
             n = a[0][1][0]
             cur, t = env['vars'][n]
             return n, f'({cur}.app {self.str_lit(a[1][1], a[2:], env)})'
+        if x[0] == 'mcall' and x[2] == 'insert_str' and x[1][0] == 'path' and len(x[1][1]) == 1 and x[1][1][0] in env['vars'] \
+                and self.literal_value(x[3][0], env) == 0:
+            n = x[1][1][0]
+            cur, t = env['vars'][n]
+            sx, ts = self.ex(x[3][1], env)
+            if ts not in ('string', 'strings'): raise TranslateError('insert_str of non-string')
+            return n, f'({sx}.app {cur})'
         if x[0] == 'mcall' and x[2] in ('push_str', 'push') and x[1][0] == 'path' and len(x[1][1]) == 1 and x[1][1][0] in env['vars']:
             n = x[1][1][0]
             cur, t = env['vars'][n]
@@ -1513,16 +1567,16 @@ def generate(spec, repo):
             for vn, payload in items.enums[sn]:
                 if payload: raise TranslateError('enum with payload: ' + sn)
                 L.append(f'  | {vn}')
-            L.append('  deriving DecidableEq, Repr')
+            L.append('  deriving DecidableEq, Repr, Inhabited')
         else:
             fs = items.structs[sn]
             if not fs:
-                L.append(f'structure {sn} where\n  deriving DecidableEq, Repr')
+                L.append(f'structure {sn} where\n  deriving DecidableEq, Repr, Inhabited')
             else:
                 L.append(f'structure {sn} where')
                 for f, ft in fs:
                     L.append(f'  {tr.fld(f)} : {tr.lean_ty(ft, sn)}')
-                L.append('  deriving DecidableEq, Repr')
+                L.append('  deriving DecidableEq, Repr, Inhabited')
     for q in order:
         L.append(texts[q])
     L.append('/-! kernel-checked: every literal mask was split into contiguous runs correctly -/')
